@@ -186,3 +186,44 @@ Proof.
   rewrite device_messages_in_order by (eapply msgs_spec_one_sender; exact Hi).
   now apply (msgs_spec_periods create sc d ims).
 Qed.
+
+(* ---------- create_can_signals: the numbers the model of C06 takes from the layout ---------- *)
+Lemma ext_str_is_big p : ext_str_is p "endianness" "big" = is_big p.
+Proof. unfold ext_str_is, ext_str, is_big. destruct (lookup "endianness" (pext p)) as [[z|s|]|]; reflexivity. Qed.
+
+Lemma create_loop (f : piece -> csignal) : forall ps acc0 d0,
+  fold_left (fun (acc : list csignal * Z) p => let '(signals, max_dlc) := acc in (signals ++ [f p], Z.max max_dlc (ceil8 (pstart p + plen p)))) ps (acc0, d0)
+  = (acc0 ++ map f ps, fold_left Z.max (map (fun p => (pstart p + plen p + 7) / 8) ps) d0).
+Proof.
+  induction ps as [|p ps IH]; intros acc0 d0; [cbn; now rewrite app_nil_r|].
+  cbn [fold_left map]. rewrite IH, <- app_assoc. reflexivity.
+Qed.
+
+(* start bit, length and byte order of every signal are the layout piece's (the byte order as the C writer reads it: `endianness`), the
+   signedness is decided by the first letter of the type's name, and the message length is the largest ceil(end / 8) *)
+Theorem create_can_signals_is_the_layout ps :
+  let '(sigs, dlc) := py_create_can_signals ps in
+  map (fun s => (cs_start_bit s, cs_bit_length s, String.eqb (cs_byte_order s) "big_endian", cs_signed s)) sigs
+  = map (fun p => (pstart p, plen p, is_big p, starts_with_i (piece_type_name p))) ps /\
+  dlc = fold_left Z.max (map (fun p => (pstart p + plen p + 7) / 8) ps) 0.
+Proof.
+  unfold py_create_can_signals. cbv zeta.
+  rewrite (create_loop (fun piece =>
+    {| cs_name := dbc_name piece; cs_start_bit := pstart piece; cs_bit_length := plen piece; cs_data_type := piece_type_name piece;
+       cs_scalar_type := piece_type_name piece;
+       cs_byte_order := if ext_str_is piece "endianness" "big" then "big_endian" else "little_endian";
+       cs_signed := py_is_signed (piece_type_name piece);
+       cs_is_multiplexer := truthy_ostr (ext_str piece "mux_signal");
+       cs_multiplexer_ids := if truthy_ostr (ext_str piece "mux_signal")
+                             then Some (zrange match ext_int piece "mux_count" with Some n => n | None => 0 end) else None;
+       cs_multiplexer_signal := ext_str piece "mux_signal" |})).
+  cbn [app]. split; [|reflexivity]. rewrite map_map. apply map_ext. intros p. cbn [cs_start_bit cs_bit_length cs_byte_order cs_signed].
+  rewrite ext_str_is_big, is_signed_is_first_letter. destruct (is_big p); reflexivity.
+Qed.
+
+(* and that length is the DLC of the model's frame *)
+Corollary create_can_signals_dlc_is_the_models fid ps vs :
+  cf_dlc (c_encode_msg fid ps vs) = snd (py_create_can_signals ps) mod 16.
+Proof.
+  pose proof (create_can_signals_is_the_layout ps) as H. destruct (py_create_can_signals ps) as [sigs dlc]. destruct H as [_ ->]. reflexivity.
+Qed.
